@@ -364,7 +364,14 @@ def zone_provenance(ctx):
         ctx.check(f.cls.qualname == lo.qualname, f'zone-of-line:override:{ctx.short(f)}', f.site(), 'no subclass overrides memory_zone', ctx.short(f))
 
 
-RULES = [c05_1, c05_2, c05_3, c05_4, c05_5, zone_provenance]
+def c05_predefined(ctx):
+    """Zones declared in the ISA definition confine code only if each is created with its own bounds."""
+    from rules.shared import cfg_accessors, cfg_zones
+    cfg_accessors(ctx, only=('predefined_memory_zones',))
+    cfg_zones(ctx)
+
+
+RULES = [c05_predefined, c05_1, c05_2, c05_3, c05_4, c05_5, zone_provenance]
 
 # ---------------------------------------------------------------------- self-test variants
 from engine.selftest import V  # noqa: E402
@@ -374,6 +381,8 @@ _MG = 'assembler/memory_zone/manager.py'
 _AF = 'assembler/assembly_file.py'
 _AD = 'assembler/line_object/directive_line/address.py'
 MUTANTS = [
+    V('c05-predefined-zone-end-exclusive', 'assembler/memory_zone/manager.py', "mz['name']: MemoryZone(address_bits, mz['start'], mz['end'], mz['name'])", "mz['name']: MemoryZone(address_bits, mz['start'], mz['end'] - 1, mz['name'])", 'CFG.4'),
+    V('c05-predefined-zone-skips-global', 'assembler/memory_zone/manager.py', "            for mz in predefined_zones\n", "            for mz in predefined_zones if mz['name'] != GLOBAL_ZONE_NAME\n", 'CFG.4'),
     V('c05-upper+2', _MZ, 'if value > self.end + 1:', 'if value > self.end + 2:', 'C05.1'),
     V('c05-upper-strict', _MZ, 'if value > self.end + 1:', 'if value >= self.end + 1:', 'C05.1'),
     V('c05-lower-dropped', _MZ, 'if value < self.start:', 'if False:', 'C05.1'),
